@@ -67,6 +67,10 @@ func stepperTable(c *Ctx, r *R) {
 		if n, p, ok := cmpAtomNE(v, pNum, eng.PBin(token.SUB, eNum, eng.PInt(1)), "parentNotPred"); ok {
 			return n, p, ok
 		}
+		// the same comparison spelled `parent + 1 != entry`
+		if n, p, ok := cmpAtomNE(v, eng.PBin(token.ADD, pNum, eng.PInt(1)), eNum, "parentNotPred"); ok {
+			return n, p, ok
+		}
 		return "", false, false
 	}
 	r.Site(2)
